@@ -431,6 +431,14 @@ def main(args):
             units.append({'kind': 'threads', 'module': 'stdnum.numdb', 'what': 'numdb.get', 'arg': name, 'threads': T, 'L': 0, 'timeout': 60})
     for target, arg in (('stdnum.eu.vat', 'nl'), ('stdnum.eu.vat', 'xi'), ('stdnum.vatin', 'ch'), ('stdnum.iban', 'be'), ('stdnum.iban', 'nl')):
         units.append({'kind': 'threads', 'module': target, 'what': target, 'arg': arg, 'threads': 2, 'L': 0, 'timeout': 60})
+    if getattr(args, 'units_only', False):
+        return units
+    if tier != 'quick':
+        # thorough = the quick tier's units first (larger caps), then everything else while the budget lasts
+        import copy
+        qa = copy.copy(args)
+        qa.tier, qa.units_only = 'quick', True
+        units = common.plan_thorough(units, main(qa))
     rep = common.Report('C13', tier)
     rep.assumptions = ASSUMPTIONS
     rep.bounds = {'caches': ['stdnum.eu.vat._country_modules', 'stdnum.vatin._country_modules', 'stdnum.iban._country_modules', 'stdnum.numdb._open_databases'],
@@ -441,6 +449,6 @@ def main(args):
         if args.verbose:
             u = res['unit']
             print('[%d/%d] %s %s %s %s viol=%d unconfirmed=%s' % (done, total, u['kind'], u.get('target') or u.get('what') or (u['module'] + '.' + u.get('func', '')), res.get('outcomes', res.get('error', res.get('skipped'))), res.get('wall_s'), len(res.get('violations', [])), res.get('unconfirmed_counterexamples')), file=sys.stderr)
-    for res in common.run_units(unit_fn, units, 400 if tier == 'quick' else 2000, progress, deadline):
+    for res in common.run_units(unit_fn, (units if tier == 'quick' else sorted(units, key=common._prio)), (lambda u: u.get('timeout', 200) * 2 + 100), progress, deadline):
         rep.add_unit(res)
     return rep.finish()
